@@ -153,7 +153,11 @@ func (fv *FuncVC) call(v ssa.Value, cc *ssa.CallCommon, instr ssa.Instruction) {
 	switch {
 	case cc.IsInvoke():
 		key := ifaceKey(cc)
-		fv.oblige("nil", "invoke "+cc.Method.Name(), nil, pos, smtNot(app("=", app("Iface_tag", args[0].T.S), "0")), "")
+		if fv.C != nil && fv.C.Flags["nilpanics"] != "" {
+			fv.assume(smtNot(app("=", app("Iface_tag", args[0].T.S), "0")))
+		} else {
+			fv.oblige("nil", "invoke "+cc.Method.Name(), nil, pos, smtNot(app("=", app("Iface_tag", args[0].T.S), "0")), "")
+		}
 		if c := fv.P.ifaceContract(cc); c != nil {
 			res = fv.applyContract(c, nil, args, ats, rts, pos, key, tracked)
 		} else {
